@@ -304,7 +304,18 @@ def o_dict(spec):
 @st.composite
 def file_cases(draw, tier):
     k = draw(st.integers(0, 3))
-    return {"circuits": [draw(serde_circuit(tier)) for _ in range(k)],
+    circuits = [draw(serde_circuit(tier)) for _ in range(k)]
+    if draw(st.booleans()):
+        # circuits of one list may each define a gate of the same name differently
+        for cspec in circuits:
+            first = next((o for o in cspec["ops"] if o["g"] in ("custom", "customsym")), None)
+            if first is None:
+                continue
+            ident = {kk: first[kk] for kk in ("g", "t", "f", "k", "mseed") if kk in first}
+            for o in cspec["ops"]:
+                if all(o.get(kk) == vv for kk, vv in ident.items()):
+                    o["name"] = "shared_gate"
+    return {"circuits": circuits,
             "single": draw(serde_circuit(tier)),
             "via": draw(st.sampled_from(["path", "stringio", "fileobj"]))}
 
@@ -345,6 +356,9 @@ def o_file(spec):
     cl = set()
     for s in spec["circuits"] + [spec["single"]]:
         cl |= classes_of(s)
+    names = [{o.get("name") for o in s["ops"]} for s in spec["circuits"]]
+    if sum(1 for nset in names if "shared_gate" in nset) >= 2:
+        cl.add("same_gate_name_in_several_circuits")
     cl.add("via:" + spec["via"])
     cl.add("list_len:%d" % len(cs))
     nt = any(_nontrivial(s) for s in spec["circuits"] + [spec["single"]])
